@@ -6,7 +6,7 @@
      an accepted PUBLISH (APub p i c d) is appended to sp_out q for exactly the q that hold c
      (last SUBSCRIBE/UNSUBSCRIBE of q for c was a SUBSCRIBE and q has not gone) and are not closing. *)
 From Coq Require Import ZArith List Bool.
-From HP Require Import Bytes Sha1 Wire Broker BrokerSpec BrokerInv BrokerProps.
+From HP Require Import Bytes Sha1 Wire Broker BrokerSpec BrokerInv BrokerProps BrokerStores.
 Import ListNotations.
 
 Section C01.
@@ -40,7 +40,13 @@ Theorem C01_common_order : forall h q,
 Proof. exact (common_order bname store async_store). Qed.
 End C01.
 
+(* the same refinement when the credential store changes while the broker runs (segments, each under its own store) *)
+Theorem C01_changing_store_refines : forall bname async segs q,
+  pubs (out (conns (runs bname async segs) q)) = sp_out (spec (alog (runs bname async segs))) q.
+Proof. exact runs_refines. Qed.
+
 Print Assumptions C01_refines.
 Print Assumptions C01_fanout_rule.
 Print Assumptions C01_publisher_ident.
 Print Assumptions C01_common_order.
+Print Assumptions C01_changing_store_refines.
